@@ -100,8 +100,13 @@ def rule_bisect(prog, rep):
     if not (cond and body and init and cond[0] == "lam" and body[0] == "lam"):
         rep.undecided("C10.term", site, "_bisection_search:while", "while_loop arguments not recognised")
         return
+    # a record-typed loop state (NamedTuple) is read as the tuple of its fields in declaration order
+    t, w, cond, body, init = _record_state_as_tuple(prog, t, w)
     st_c, st_b = ("bv", lam_level(cond), 0), ("bv", lam_level(body), 0)
-    lo_b, up_b, it_b = proj(st_b, 0), proj(st_b, 1), proj(st_b, 2)
+    # roles, not positions: the counter is the component compared with max_iter, the bracket ends are the
+    # operands of the width test (upper - lower)
+    I_LO, I_UP, I_IT = _state_roles(cond, st_c)
+    lo_b, up_b, it_b = proj(st_b, I_LO), proj(st_b, I_UP), proj(st_b, I_IT)
     # --- termination
     conj = []
     c = cond[2]
@@ -111,30 +116,30 @@ def rule_bisect(prog, rep):
         conj = list(c[1])
     else:
         conj = [c]
-    has_bound = any(same(x, mk_cmp("<", proj(st_c, 2), MI)) for x in conj)
+    has_bound = any(same(x, mk_cmp("<", proj(st_c, I_IT), MI)) for x in conj)
     rep.check(has_bound, "C10.term", site, "bisection:cond-has-iterations<max_iter",
               "loop condition contains iterations < max_iter",
               f"loop condition {show(c, 200)} has no conjunct iterations < max_iter: the loop need not terminate "
               f"when the width test cannot be met (tolerance below float resolution)")
     out = body[2]
-    ok_inc = out[0] == "tuple" and len(out[1]) == 3 and equal(out[1][2], mk_add((it_b, C(1))))
+    ok_inc = out[0] == "tuple" and len(out[1]) == 3 and equal(out[1][I_IT], mk_add((it_b, C(1))))
     rep.check(ok_inc, "C10.term", site, "bisection:iterations+1", "body returns iterations + 1",
-              f"counter update is {show(out[1][2], 100) if out[0] == 'tuple' and len(out[1]) == 3 else show(out, 100)}")
-    ok_init = init[0] == "tuple" and len(init[1]) == 3 and init[1][2] == C(0)
+              f"counter update is {show(out[1][I_IT], 100) if out[0] == 'tuple' and len(out[1]) == 3 else show(out, 100)}")
+    ok_init = init[0] == "tuple" and len(init[1]) == 3 and init[1][I_IT] == C(0)
     rep.check(ok_init, "C10.term", site, "bisection:counter-starts-at-0", "init counter 0",
               f"initial state {show(init, 160)}")
     guards = [g for g in it.guards if g[0] == "raise-if" and same(g[1], mk_cmp("<", MI, C(0)))]
     rep.check(bool(guards), "C10.term", site, "bisection:max_iter<0-rejected", "max_iter < 0 raises",
               "no guard rejecting max_iter < 0 (a negative bound would make the ranking argument vacuous)")
     # --- width conjunct
-    want_w = mk_cmp(">", mk_add((proj(st_c, 1), mk_neg(proj(st_c, 0)))), mk_mul((C(2), TOL)))
+    want_w = mk_cmp(">", mk_add((proj(st_c, I_UP), mk_neg(proj(st_c, I_LO)))), mk_mul((C(2), TOL)))
     rep.check(any(equal(x, want_w) for x in conj), "C10.bracket", site, "bisection:width-test",
               "loop runs while upper - lower > 2*tol", f"width test not found in {show(c, 200)}")
     # --- bracket update
     if not (out[0] == "tuple" and len(out[1]) == 3):
         rep.undecided("C10.bracket", site, "bisection:body", f"body does not return a 3-tuple: {show(out, 160)}")
         return
-    new_lo, new_up = out[1][0], out[1][1]
+    new_lo, new_up = out[1][I_LO], out[1][I_UP]
     mid = mk_div(mk_add((lo_b, up_b)), C(2))
     zs = compared_with_consts(("tuple", (new_lo, new_up)))
     want_sign = sign_of(fcall(mid))
@@ -155,17 +160,69 @@ def rule_bisect(prog, rep):
                   f"({show(el, 80)}, {show(eu, 80)})")
     # --- returned root = midpoint of the final bracket
     root = proj(t, 0)
-    want_root = mk_div(mk_add((proj(w, 0), proj(w, 1))), C(2))
+    want_root = mk_div(mk_add((proj(w, I_LO), proj(w, I_UP))), C(2))
     rep.check(equal(root, want_root), "C10.bracket", site, "bisection:root==final-midpoint",
               "root = (lower + upper)/2 of the final state", f"returned root is {show(root, 200)}")
     # initial bracket comes from the adaptation step
     ad = [s for s in walk(init) if s[0] == "call" and s[1] == ("ext", BS + "_adapt_interval_to_include_root")]
-    ok = bool(ad) and same(init[1][0], proj(ad[0], 0)) and same(init[1][1], proj(ad[0], 1)) \
+    ok = bool(ad) and same(init[1][I_LO], proj(ad[0], 0)) and same(init[1][I_UP], proj(ad[0], 1)) \
         and dict(ad[0][3]).get("lower") == LO and dict(ad[0][3]).get("upper") == UP and (
             ad[0][2][:1] == (F,) or dict(ad[0][3]).get("func") == F)
     rep.check(ok, "C10.bracket", site, "bisection:starts-from-adapted-interval",
               "initial bracket = _adapt_interval_to_include_root(func, lower, upper)[:2]",
               f"initial state {show(init, 200)}")
+
+
+def _state_roles(cond, st_c):
+    """(index of lower, index of upper, index of the iteration counter) in the loop state, from the loop condition:
+    the counter is compared with MAX_ITER, the width test subtracts lower from upper.  Falls back to (0, 1, 2)."""
+    i_lo, i_up, i_it = 0, 1, 2
+    for s2 in walk(cond[2]):
+        if s2[0] == "cmp" and (s2[2] == MI or s2[3] == MI):
+            o = s2[3] if s2[2] == MI else s2[2]
+            if o[0] == "sub" and same(o[1], st_c) and is_const(o[2]):
+                i_it = o[2][1]
+        if s2[0] == "add" and len(s2[1]) == 2:
+            pos = [x for x in s2[1] if x[0] == "sub" and same(x[1], st_c) and is_const(x[2])]
+            neg = [x[1][1] for x in s2[1] if x[0] == "mul" and len(x[1]) == 2 and x[1][0] == C(-1)
+                   and x[1][1][0] == "sub" and same(x[1][1][1], st_c) and is_const(x[1][1][2])]
+            if len(pos) == 1 and len(neg) == 1:
+                i_up, i_lo = pos[0][2][1], neg[0][2][1]
+    if len({i_lo, i_up, i_it}) != 3 or not all(isinstance(i, int) and 0 <= i <= 2 for i in (i_lo, i_up, i_it)):
+        return 0, 1, 2
+    return i_lo, i_up, i_it
+
+
+def _record_state_as_tuple(prog, t, w):
+    """If the while_loop state is built by a NamedTuple class of the repository, rewrite constructor calls to tuples
+    (field order of the class) and field reads on the loop variables / the loop result to projections."""
+    kw = dict(w[3])
+    init = kw.get("init_val")
+    fields = None
+    if init is not None and init[0] == "call" and init[1][0] == "ext":
+        r = prog.lookup(init[1][1])
+        if r and r[0] == "class" and any(b.endswith("NamedTuple") for b in r[1].bases):
+            fields = [f for f, fi in r[1].fields.items() if not fi.classvar]
+            head = init[1]
+    if not fields:
+        return t, w, kw.get("cond_fun"), kw.get("body_fun"), init
+
+    def rw(s2):
+        if s2[0] == "call" and s2[1] == head:
+            vals = dict(zip(fields, s2[2]))
+            vals.update(dict(s2[3]))
+            if set(vals) == set(fields):
+                return ("tuple", tuple(vals[f] for f in fields))
+        if s2[0] == "attr" and s2[2] in fields and (s2[1][0] == "bv" or (
+                s2[1][0] == "call" and s2[1][1] == ("ext", "jax.lax.while_loop"))):
+            return proj(s2[1], fields.index(s2[2]))
+        return None
+    t2 = subst(t, rw)
+    w2 = _get_while(t2)
+    if w2 is None:
+        return t, w, kw.get("cond_fun"), kw.get("body_fun"), init
+    kw2 = dict(w2[3])
+    return t2, w2, kw2.get("cond_fun"), kw2.get("body_fun"), kw2.get("init_val")
 
 
 def rule_adapt(prog, rep):
